@@ -363,6 +363,33 @@ static void dump_module(struct context_data *ctx)
 	printf("\n");
 }
 
+/* what the real mixer makes of (rate, time factor, rrate, tempo, format): libxmp_mixer_get_ticksize,
+ * libxmp_mixer_prepare and xmp_get_frame_info run on a scratch context (no constant of the cap is
+ * repeated here) */
+static void real_tick(int freq, double tf, double rr, int bpm, int format, int *t, int *pt, int *bs)
+{
+	static struct context_data *sc;
+	static struct scan_data dummy_scan;
+	struct xmp_frame_info fi;
+	if (sc == NULL) {
+		sc = (struct context_data *)calloc(1, sizeof(*sc));
+		sc->s.buf32 = (int32 *)calloc(XMP_MAX_FRAMESIZE, sizeof(int32));
+		sc->p.scan = &dummy_scan;
+		sc->state = XMP_STATE_LOADED;
+	}
+	sc->s.freq = freq;
+	sc->s.format = format;
+	sc->m.time_factor = tf;
+	sc->m.rrate = rr;
+	sc->p.bpm = bpm;
+	*t = libxmp_mixer_get_ticksize(freq, tf, rr, bpm);
+	libxmp_mixer_prepare(sc);
+	*pt = sc->s.ticksize;
+	memset(&fi, 0, sizeof(fi));
+	xmp_get_frame_info((xmp_context)sc, &fi);
+	*bs = fi.buffer_size;
+}
+
 /* exact value of a double as mantissa * 2^exp */
 static void put_double(double x)
 {
@@ -552,7 +579,7 @@ static int gen_pos_arg(int len, int cur)
 	}
 }
 
-static void do_control(xmp_context c, struct context_data *ctx, int *stopped)
+static void do_control(xmp_context c, struct context_data *ctx, int *stopped, int force)
 {
 	struct xmp_module *mod = &ctx->m.mod;
 	int pre[NST], post[NST], kind, arg = 0, ret = 0;
@@ -560,11 +587,11 @@ static void do_control(xmp_context c, struct context_data *ctx, int *stopped)
 
 	xmp_get_frame_info(c, &fi);
 	get_state(ctx, pre);
-	kind = vrng_below(11);
+	kind = force >= 0 ? (force == 0 ? 0 : 7) : (int)vrng_below(11);
 	switch (kind) {
 	case 0: case 1: case 2:
 		kind = 0;
-		arg = gen_pos_arg(mod->len, ctx->p.pos);
+		arg = force == 0 ? (int)vrng_below(mod->len > 0 ? mod->len : 1) : gen_pos_arg(mod->len, ctx->p.pos);
 		ret = xmp_set_position(c, arg);
 		break;
 	case 3: case 4:
@@ -583,6 +610,16 @@ static void do_control(xmp_context c, struct context_data *ctx, int *stopped)
 		case 2: arg = fi.num_rows; break;
 		case 3: arg = -1; break;
 		default: arg = vrng_range(-1, 70); break;
+		}
+		if (force == 3) {
+			/* right after a position call: rows of the target pattern vs the cached f->num_rows */
+			switch (vrng_below(5)) {
+			case 0: arg = fi.num_rows - 1; break;
+			case 1: arg = fi.num_rows; break;
+			case 2: arg = ctx->p.flow.num_rows - 1; break;
+			case 3: arg = ctx->p.flow.num_rows; break;
+			default: arg = vrng_range(0, ctx->p.flow.num_rows > fi.num_rows ? ctx->p.flow.num_rows : fi.num_rows + 1); break;
+			}
 		}
 		ret = xmp_set_row(c, arg);
 		break;
@@ -843,9 +880,15 @@ static int run_case(uint64_t cs, int nframes, const char *modname)
 		int nctl = 0;
 		/* control calls and injected events between frames */
 		if (vrng_chance(stopped ? 60 : 9)) {
-			nctl = vrng_range(1, 3);
-			while (nctl-- > 0)
-				do_control(c, ctx, &stopped);
+			if (vrng_chance(22)) {
+				/* reposition onto an arbitrary order, then set a row before the next frame */
+				do_control(c, ctx, &stopped, 0);
+				do_control(c, ctx, &stopped, 3);
+			} else {
+				nctl = vrng_range(1, 3);
+				while (nctl-- > 0)
+					do_control(c, ctx, &stopped, -1);
+			}
 			prev_loop = -1;	/* "between position-control calls" */
 		}
 		if (vrng_chance(6)) {
@@ -889,6 +932,11 @@ static int run_case(uint64_t cs, int nframes, const char *modname)
 				g_rowadv++;
 			fails += oracle(c, ctx, i, rate, format, tf_called, &prev_loop, synth ? desc : modname);
 			monitor_effrange(post, i);
+			if (ctx->p.frame_time != ctx->m.time_factor * ctx->m.rrate / ctx->p.bpm) {
+				printf("A frametime frame %d: p->frame_time %.9g is not time_factor*rrate/bpm = %.9g (bpm %d, time factor %g)\n",
+				       i, ctx->p.frame_time, ctx->m.time_factor * ctx->m.rrate / ctx->p.bpm, ctx->p.bpm, ctx->m.time_factor);
+				g_assume++;
+			}
 			/* ST2.6 step: speed must be the byte selected by the toggled state */
 			if (post[3] == 0 && post[7] != 0 && !inject_pending && !g_mid_taken && !pending_delay) {
 				printf("D st26 %d\nE t %d %d\n", post[7] ^ 0x10000, post[4], post[7]);
@@ -920,9 +968,8 @@ static int run_case(uint64_t cs, int nframes, const char *modname)
 		put_double(ctx->m.rrate);
 		printf(" %d %d %d\n", bpm, (format & XMP_FORMAT_MONO) ? 1 : 0, (format & XMP_FORMAT_8BIT) ? 1 : 0);
 		{
-			int t = libxmp_mixer_get_ticksize(rate, ctx->m.time_factor, ctx->m.rrate, bpm);
-			int pt = (t < 0 || t > XMP_MAX_FRAMESIZE / 2) ? XMP_MAX_FRAMESIZE / 2 : t;
-			int bs = pt * ((format & XMP_FORMAT_MONO) ? 1 : 2) * ((format & XMP_FORMAT_8BIT) ? 1 : 2);
+			int t, pt, bs;
+			real_tick(rate, ctx->m.time_factor, ctx->m.rrate, bpm, format, &t, &pt, &bs);
 			printf("E q %d %d %d\n", t, pt, bs);
 		}
 	}
@@ -1000,9 +1047,7 @@ int main(int argc, char **argv)
 				rr = 0.0;
 			mono = vrng_below(2);
 			bit8 = vrng_below(2);
-			t = libxmp_mixer_get_ticksize(freq, tf, rr, bpm);
-			pt = (t < 0 || t > XMP_MAX_FRAMESIZE / 2) ? XMP_MAX_FRAMESIZE / 2 : t;
-			bs = pt * (mono ? 1 : 2) * (bit8 ? 1 : 2);
+			real_tick(freq, tf, rr, bpm, (mono ? XMP_FORMAT_MONO : 0) | (bit8 ? XMP_FORMAT_8BIT : 0), &t, &pt, &bs);
 			printf("D tick %d", freq);
 			put_double(tf);
 			put_double(rr);
